@@ -185,6 +185,14 @@ class Roles:
                     for s in blk:
                         if isinstance(s, ast.Assign) and isinstance(s.targets[0], ast.Name) and isinstance(s.value, ast.Constant) and s.value.value is True:
                             self.reached = s.targets[0].id
+        if self.reached is None:
+            # the flag computed as an expression in every iteration and used as the break condition:
+            #   reached = <stopping rule>;  if reached: break
+            assigned_in_loop = {t.id for x in ast.walk(self.loop) if isinstance(x, ast.Assign) for t in x.targets if isinstance(t, ast.Name)}
+            for x in ast.walk(self.loop):
+                if isinstance(x, ast.If) and isinstance(x.test, ast.Name) and x.test.id in assigned_in_loop \
+                        and any(isinstance(s, ast.Break) for s in x.body):
+                    self.reached = x.test.id
 
     def table(self) -> Dict[str, Optional[str]]:
         return {k: getattr(self, k) for k in ("rhs_norm", "rhs_is_zero", "residual", "residual_norm", "has_converged", "result", "reached")}
@@ -252,6 +260,9 @@ def run(idx: ProgramIndex, rep: Report, tier: str, selftest: bool = True):
     from ..normalize import expand_loop_else
 
     rep.analysed["loop_else_rewritten"] = expand_loop_else({cg0.module.name: ast.Module(body=[cg.node], type_ignores=[])})
+    from ..normalize import split_conditional_returns
+
+    rep.analysed["conditional_returns_split"] = split_conditional_returns({cg0.module.name: ast.Module(body=[cg.node], type_ignores=[])})
     R = Roles(cg)
     rep.analysed["inlined_helpers"] = inlined
     rep.analysed["roles"] = R.table()
@@ -381,7 +392,7 @@ def run(idx: ProgramIndex, rep: Report, tier: str, selftest: bool = True):
             pass
         return names, labels
 
-    def tolerance_holds_at(nid: int) -> bool:
+    def tolerance_holds_at(nid: int, expr: Optional[ast.AST] = None) -> bool:
         """Some test that controls the node guarantees - on the branch that leads to the node, whichever disjunct made it take
         that branch - that a value computed from the residual norm is below the tolerance (names computed earlier in the
         iteration count through their single definition).  Being on the OTHER branch of the tolerance test does not count."""
@@ -421,6 +432,8 @@ def run(idx: ProgramIndex, rep: Report, tier: str, selftest: bool = True):
                 pass
             return names
 
+        if expr is not None:
+            return test_guarantees(expr, True, below_tolerance, resolve)
         for t in controlling_tests(cfg, nid):
             if not _inside(loop_ast, t.ast):
                 continue
@@ -471,6 +484,18 @@ def run(idx: ProgramIndex, rep: Report, tier: str, selftest: bool = True):
                 rep.bad("C08.X", Finding(PROP, "C08.X", F, "tolerance-reached flag = True",
                                          f"`{R.reached}` is set outside the tolerance test: the NumericalWarning is suppressed "
                                          "although the tolerance was not reached", cg0.loc(s_.ast)))
+
+        # the flag assigned from an expression inside the loop (reached = k >= ... and norm < tolerance and ...): whenever the
+        # expression is true the tolerance must have been reached
+        for s_ in [n for n in cfg.stmt_nodes() if n.kind == "stmt" and isinstance(n.ast, ast.Assign) and _inside(loop_ast, n.ast) and any(
+                isinstance(t, ast.Name) and t.id == R.reached for t in n.ast.targets)
+                and not isinstance(n.ast.value, ast.Constant)]:
+            if tolerance_holds_at(s_.id, s_.ast.value):
+                rep.ok("C08.X", {"reached_flag": R.reached, "computed_as": short(s_.ast.value, 70)})
+            else:
+                rep.bad("C08.X", Finding(PROP, "C08.X", F, "tolerance-reached flag computed without the tolerance test",
+                                         f"`{R.reached}` is assigned an expression that can be true although `residual norm < tolerance` does "
+                                         "not hold: the NumericalWarning is suppressed for an unconverged solve", cg0.loc(s_.ast)))
 
     def alternatives(e: ast.AST, pol: bool, depth: int = 0) -> List[List[Tuple[ast.AST, bool]]]:
         """The condition `e == pol` as a disjunction of conjunctions of literals (expr, polarity)."""
@@ -604,8 +629,27 @@ def run(idx: ProgramIndex, rep: Report, tier: str, selftest: bool = True):
             return layout_sources(e.func.value, nid, depth + 1)
         if isinstance(e, ast.Call) and dotted(e.func) in ("torch.zeros", "torch.empty", "torch.zeros_like", "torch.empty_like"):
             return {"buffer"}
+        if isinstance(e, ast.Call) and dotted(e.func) in ("torch.permute", "torch.transpose", "torch.squeeze", "torch.unsqueeze", "torch.narrow",
+                                                            "torch.clone", "torch.movedim", "torch.reshape") and e.args:
+            return layout_sources(e.args[0], nid, depth + 1)
+        if isinstance(e, ast.Constant) and e.value is None:
+            return {"none"}  # a placeholder on the path where no tridiagonal matrix was requested
         if isinstance(e, ast.IfExp):
             return layout_sources(e.body, nid, depth + 1) | layout_sources(e.orelse, nid, depth + 1)
+        if isinstance(e, ast.Call) and isinstance(e.func, ast.Name) and e.func.id in cg0.module.functions and depth < 6 \
+                and not any(isinstance(a_, ast.Starred) for a_ in e.args):
+            # a same-module helper in expression position (return result, _finalize_tridiag(t_mat, ...)): what it returns, its
+            # parameters standing for the arguments
+            h = cg0.module.functions[e.func.id]
+            hp = h.params()
+            binding = {p_: a_ for p_, a_ in zip(hp, e.args)}
+            binding.update({k.arg: k.value for k in e.keywords if k.arg in hp})
+            rd_h = ReachingDefs(h, reads=value_reads)
+            out_h: Set[str] = set()
+            for r_ in [n for n in walk_body(h) if isinstance(n, ast.Return) and n.value is not None]:
+                nid_h = rd_h.node_of(r_)
+                out_h |= helper_sources(r_.value, nid_h, rd_h, binding, nid, depth + 1) if nid_h is not None else {"?"}
+            return out_h or {"?"}
         if isinstance(e, ast.Name):
             out: Set[str] = set()
             for d, i_ in rd_l.IN.get(nid, {}).get(e.id, ()):
@@ -617,6 +661,37 @@ def run(idx: ProgramIndex, rep: Report, tier: str, selftest: bool = True):
                     # an in-place write / out= / subscript store: the recurrence inside the loop, anything else after it
                     out.add("buffer" if _inside(loop_ast, st) or not any(_inside(s_, st) for s_ in R.post) else "written-after:" + short(st, 50))
                 else:
+                    out.add("?")
+            return out or {"?"}
+        return {"computed:" + short(e, 50)}
+
+    def helper_sources(e: ast.AST, nid_h: int, rd_h, binding, nid_caller: int, depth: int) -> Set[str]:
+        """layout_sources inside a helper: its own definitions first, parameters resolved at the call site"""
+        if depth > 12:
+            return {"?"}
+        if isinstance(e, ast.Subscript):
+            return helper_sources(e.value, nid_h, rd_h, binding, nid_caller, depth + 1)
+        if isinstance(e, ast.Attribute) and e.attr in ("mT", "T", "mH"):
+            return helper_sources(e.value, nid_h, rd_h, binding, nid_caller, depth + 1)
+        if isinstance(e, ast.Call) and isinstance(e.func, ast.Attribute) and e.func.attr in LAYOUT and not (dotted(e.func) or "").startswith("torch."):
+            return helper_sources(e.func.value, nid_h, rd_h, binding, nid_caller, depth + 1)
+        if isinstance(e, ast.Call) and dotted(e.func) in ("torch.permute", "torch.transpose", "torch.squeeze", "torch.unsqueeze", "torch.narrow",
+                                                            "torch.clone", "torch.movedim", "torch.reshape") and e.args:
+            return helper_sources(e.args[0], nid_h, rd_h, binding, nid_caller, depth + 1)
+        if isinstance(e, ast.Name):
+            defs_ = rd_h.IN.get(nid_h, {}).get(e.id, ())
+            out: Set[str] = set()
+            for d, i_ in defs_:
+                st = rd_h.cfg.nodes[d].ast
+                _n, _r, strong = rd_h.defs[d][i_]
+                if strong and isinstance(st, ast.Assign) and len(st.targets) == 1 and isinstance(st.targets[0], ast.Name):
+                    out |= helper_sources(st.value, d, rd_h, binding, nid_caller, depth + 1)
+                else:
+                    out.add("written-after:" + short(st, 50) if not strong else "?")
+            if not defs_ or e.id in binding and not any(rd_h.defs[d][i_][2] for d, i_ in defs_):
+                if e.id in binding:
+                    out |= layout_sources(binding[e.id], nid_caller, depth + 1)
+                elif not defs_:
                     out.add("?")
             return out or {"?"}
         return {"computed:" + short(e, 50)}
